@@ -35,9 +35,6 @@ func extras() []sqlm.PoolEntry {
 		dflt(col("t_empty", "text"), "str", ""),
 		dflt(col("t_quote", "text"), "str", "it's"),
 		dflt(ncol("t_dq", "varchar(100)"), "str", `say "hi"`),
-		dflt(ncol("t_syntax", "text"), "str", "a,b)(c"),
-		dflt(ncol("t_kw", "text"), "str", "CHECK ("),
-		dflt(ncol("t_dash", "text"), "str", "-- no comment"),
 		dflt(ncol("t_null", "text"), "str", "NULL"),
 		dflt(ncol("d_date", "date"), "expr", "CURRENT_DATE"),
 		dflt(ncol("d_time", "text"), "expr", "CURRENT_TIME"),
@@ -47,9 +44,17 @@ func extras() []sqlm.PoolEntry {
 		dflt(ncol("n_null", "numeric"), "expr", "NULL"),
 		dflt(ncol("x_abs", "integer"), "expr", "abs(-3)"),
 		dflt(ncol("x_cat", "text"), "expr", "'a' || 'b'"),
-		dflt(ncol("x_blob", "blob"), "expr", "x'0a0b'"),
 		dflt(ncol("x_paren", "integer"), "expr", "(1 + 2) * 3"),
 	}, PK: []string{"id"}}
+
+	// string defaults that look like SQL syntax (kept apart: a failure of one must not mask the others)
+	dsyn := sqlm.Table{Name: "dsyn", Cols: []sqlm.Col{col("id", "integer"), dflt(ncol("t_syntax", "text"), "str", "a,b)(c"), dflt(ncol("t_as", "text"), "str", "x AS (y)")}, PK: []string{"id"}}
+	dkw := sqlm.Table{Name: "dkw", Cols: []sqlm.Col{col("id", "integer"), dflt(ncol("t_kw", "text"), "str", "CHECK (")}, PK: []string{"id"}}
+	dcom := sqlm.Table{Name: "dcom", Cols: []sqlm.Col{col("id", "integer"), dflt(ncol("t_dash", "text"), "str", "-- no comment"), dflt(ncol("t_c", "text"), "str", "/* c */")}, PK: []string{"id"}}
+	// unquoted literals on columns whose affinity does not convert them
+	dmixb := sqlm.Table{Name: "dmixb", Cols: []sqlm.Col{col("id", "integer"), dflt(ncol("flag", "clob"), "expr", "FALSE"), dflt(ncol("yes", "text"), "expr", "TRUE")}, PK: []string{"id"}}
+	dmixn := sqlm.Table{Name: "dmixn", Cols: []sqlm.Col{col("id", "integer"), dflt(ncol("raw", "blob"), "num", "1")}, PK: []string{"id"}}
+	dblob := sqlm.Table{Name: "dblob", Cols: []sqlm.Col{col("id", "integer"), dflt(ncol("x_blob", "blob"), "expr", "x'0a0b'")}, PK: []string{"id"}}
 
 	strs := sqlm.Table{Name: "strs", Cols: []sqlm.Col{
 		col("id", "integer"),
@@ -128,6 +133,12 @@ func extras() []sqlm.PoolEntry {
 	}
 	out := []sqlm.PoolEntry{
 		{Name: "x-defaults", S: S(defaults)},
+		{Name: "x-default-syntax", S: S(dsyn)},
+		{Name: "x-default-keyword", S: S(dkw)},
+		{Name: "x-default-comment", S: S(dcom)},
+		{Name: "x-default-blob", S: S(dblob)},
+		{Name: "x-default-keyword-on-text", S: S(dmixb)},
+		{Name: "x-default-number-on-blob", S: S(dmixn)},
 		{Name: "x-strings", S: S(strs)},
 		{Name: "x-fkactions", S: S(parent, child)},
 		{Name: "x-indexes", S: S(many, strict)},
@@ -139,6 +150,70 @@ func extras() []sqlm.PoolEntry {
 		}
 	}
 	return out
+}
+
+// scripts are hand written databases in surface forms the model renderer does not produce. Each uses
+// only features of the supported set (tables, typed columns, defaults, primary keys, AUTOINCREMENT,
+// generated columns, checks, foreign keys, indexes); what varies is the spelling that SQLite stores
+// verbatim in sqlite_master.sql — the text Atlas's inspector recovers those features from.
+type scriptCase struct {
+	tag    string
+	script []string
+}
+
+func scripts() []scriptCase {
+	return []scriptCase{
+		{"lower-case-keywords", []string{
+			"create table lcp (id integer primary key autoincrement, name text not null default 'x' check (length(name) > 0))",
+			"create table lcc (id integer not null primary key, p integer constraint lcc_p references lcp (id) on delete cascade on update set null, g integer generated always as (id * 2) stored, h integer as (id + 1) virtual, constraint lcc_ck check (p is null or p > 0), constraint lcc_self foreign key (p) references lcc (id))",
+			"create unique index lcc_i on lcc (p desc, id)",
+		}},
+		{"lower-case-where", []string{
+			"create table lw (id integer primary key, v text)",
+			"create index lw_i on lw (v) where v is not null",
+		}},
+		{"bracket-quoting-autoincrement", []string{
+			"CREATE TABLE [br] ([id] INTEGER PRIMARY KEY AUTOINCREMENT, [v] TEXT)",
+		}},
+		{"bracket-quoting-names", []string{
+			"CREATE TABLE [bp] ([id] INTEGER NOT NULL PRIMARY KEY, [v] TEXT)",
+			"CREATE TABLE [bc] ([id] INTEGER NOT NULL PRIMARY KEY, [p] INTEGER CONSTRAINT [bc_p] REFERENCES [bp] ([id]) ON DELETE CASCADE, [g] INTEGER AS ([id] + 1) STORED, CONSTRAINT [bc_ck] CHECK ([p] > 0), CONSTRAINT [bc_f] FOREIGN KEY ([id]) REFERENCES [bp] ([id]))",
+			"CREATE INDEX [bc_i] ON [bc] ([p] DESC) WHERE [p] > 1",
+		}},
+		{"comment-mentions-check", []string{
+			"CREATE TABLE cc (a integer NOT NULL, -- the check (a > 0) was dropped in v2\n b text)",
+		}},
+		{"comment-mentions-autoincrement", []string{
+			"CREATE TABLE ca (id INTEGER PRIMARY KEY /* deliberately not AUTOINCREMENT */, v text)",
+		}},
+		{"comment-mentions-as", []string{
+			"CREATE TABLE cg (a integer NOT NULL, g integer /* stored as (a) twice */ AS (a * 2) STORED)",
+		}},
+		{"odd-whitespace", []string{
+			"CREATE TABLE ws (id INTEGER\n PRIMARY\n KEY\tAUTOINCREMENT , v TEXT\nNOT\nNULL CHECK\n(v <> '')\n, w INTEGER\nGENERATED  ALWAYS\nAS\n(id + 1)\nSTORED )",
+			"CREATE  UNIQUE\nINDEX ws_i\nON ws\n(v DESC)\nWHERE v <> 'x'",
+		}},
+		{"generated-without-kind", []string{
+			"CREATE TABLE gk (a integer NOT NULL, g integer AS (a + 1), s text GENERATED ALWAYS AS (a || 'x'))",
+		}},
+		{"fk-implicit-parent-key", []string{
+			"CREATE TABLE ip (id INTEGER NOT NULL PRIMARY KEY)",
+			"CREATE TABLE ic (id INTEGER NOT NULL PRIMARY KEY, p INTEGER REFERENCES ip ON DELETE CASCADE)",
+		}},
+		{"column-without-type", []string{
+			"CREATE TABLE nt (a NOT NULL, b DEFAULT 1, PRIMARY KEY (a))",
+		}},
+		{"check-with-nested-strings", []string{
+			"CREATE TABLE ns (a text NOT NULL CHECK (a NOT IN ('CHECK (', ')', 'CONSTRAINT x CHECK (y)')), b text CONSTRAINT ns_b CHECK (b <> '(' OR b IS NULL))",
+		}},
+		{"rename-rewritten", []string{
+			"CREATE TABLE rn0 (id INTEGER PRIMARY KEY AUTOINCREMENT, v text CONSTRAINT rn_ck CHECK (v <> ''), p integer CONSTRAINT rn_fk REFERENCES rn0 (id))",
+			"ALTER TABLE rn0 RENAME TO rn",
+			"ALTER TABLE rn RENAME COLUMN v TO w",
+			"ALTER TABLE rn ADD COLUMN x integer DEFAULT 7 CONSTRAINT rn_x CHECK (x > 0)",
+			"CREATE INDEX rn_i ON rn (w, x DESC) WHERE x > 1",
+		}},
+	}
 }
 
 // workload builds the case list: a pure function of (seed, tier).
@@ -240,6 +315,10 @@ func workload(c *rt.Ctx) []Case {
 		b, es := sqlm.RandomEdits(r, base, 2+r.IntN(4), false)
 		add(Case{Pair: sqlm.Pair{A: base, B: b, Mode: allModes[r.IntN(len(allModes))]}, Name: fmt.Sprintf("second:walk%d:%s+%d", i, bn, len(es)), Src: "second", Edits: kindsOf(es)})
 	}
+	// hand written surface variants
+	for _, sc := range scripts() {
+		add(Case{Pair: sqlm.Pair{Mode: "script"}, Name: "script:" + sc.tag, Src: "script", Script: sc.script, Tag: sc.tag})
+	}
 	// CLI leg: a seeded, stratified sample of the above is ALSO run with the exports taken from the
 	// real binary (separate processes)
 	if c.Atlas != "" {
@@ -248,9 +327,9 @@ func workload(c *rt.Ctx) []Case {
 		for i, cs := range cases {
 			bySrc[cs.Src] = append(bySrc[cs.Src], i)
 		}
-		want := map[string]int{"raw": c.Pick(24, 400), "atlas": c.Pick(8, 150), "second": c.Pick(28, 450)}
+		want := map[string]int{"raw": c.Pick(22, 400), "atlas": c.Pick(8, 150), "second": c.Pick(26, 450), "script": c.Pick(4, 100)}
 		var ix []int
-		for _, src := range []string{"raw", "atlas", "second"} {
+		for _, src := range []string{"raw", "atlas", "second", "script"} {
 			l := bySrc[src]
 			seen := map[int]bool{}
 			for len(seen) < want[src] && len(seen) < len(l) {
